@@ -308,6 +308,18 @@ def guarded_by_try(node, stop):
     return False
 
 
+def _length_guarded(node):
+    """An enclosing `if`/conditional expression tests the args (truthiness or len) before they are indexed."""
+    from ..loader import ancestors as _anc
+    for a in _anc(node):
+        if isinstance(a, (ast.If, ast.IfExp)) and '.args' in norm(a.test):
+            return True
+        if isinstance(a, ast.BoolOp) and isinstance(a.op, ast.And) and any('.args' in norm(v) for v in a.values
+                                                                             if not any(x is node for x in ast.walk(v))):
+            return True
+    return False
+
+
 def r4_recording_robust(ctx, sym):
     ctx.rule('R4', "taint: the student's exception object is followed from _capture_exception through resolved "
                    "callees (parameter passing, 4 levels); every str/repr/format/f-string/%/.format conversion of it "
@@ -369,6 +381,17 @@ def r4_recording_robust(ctx, sym):
             elif isinstance(n, ast.BinOp) and isinstance(n.op, ast.Mod) and isinstance(n.left, ast.Constant) \
                     and isinstance(n.left.value, str) and any(is_tainted(x) for x in walk_local(n.right)):
                 site = (n, '% <exception>')
+            elif isinstance(n, ast.Subscript) and isinstance(n.ctx, ast.Load) and isinstance(n.value, ast.Attribute) \
+                    and n.value.attr == 'args' and is_tainted(n.value.value):
+                # indexing the arguments of the student's exception: `raise KeyError()` has none
+                n_conv += 1
+                key = "%s:%s" % (cal.qualname, norm(n))
+                ctx.check(guarded_by_try(n, fn) or _length_guarded(n), 'R4', key, cal.module, n,
+                          "`%s` assumes the student's exception was raised with arguments; a bare `raise %s()` has an "
+                          "empty args tuple, so recording the failure raises IndexError" % (norm(n), 'KeyError'),
+                          "def lookup(d, k):\n    raise KeyError()   -> run() raises IndexError into the instructor "
+                          "script, no feedback is attached", function=cal.qualname)
+                continue
             if site is None:
                 continue
             n_conv += 1
